@@ -4,7 +4,7 @@
     translator regenerated from /repo (Gen/WireSchema.v). *)
 From Coq Require Import List NArith ZArith Bool String.
 From Verif Require Import Lib.Bytes Sni.Wire Sni.WireProofs Sni.WireGen Sni.WireFrozen Gen.WireSchema
-  Sni.WireChunks Sni.WireChunksProofs.
+  Sni.WireChunks Sni.WireChunksProofs Sni.WireReader.
 Import ListNotations.
 Local Open Scope N_scope.
 
@@ -207,14 +207,56 @@ Theorem C13_delivery_independent : forall (r1 r2 : reader N) min fuel buf big,
 Proof. exact (delivery_independent N). Qed.
 Print Assumptions C13_delivery_independent.
 
-(** What this leaves unsaid for the WHOLE decoder: every function of
-    Sni/Wire.v reaches the remaining input only through [d_read] and [d_end]
-    (by inspection of the definitions), so the theorems above carry over to
-    [dec_schema], [start_call] and [client_decode]; a statement of that needs
-    the decoder re-expressed over a [reader] and is not formalised (DESIGN.md
-    section 12, clause table of C13).  The reader-shape streams of the
-    correspondence run the real decoder under six delivery shapes against the
-    flat model. *)
+(** The WHOLE decoder over a reader (Sni/WireReader.v: every function of
+    Sni/Wire.v re-expressed over a [reader], [abs] = the flat state it stands
+    for).  The server entry and the client-side decode, handed ANY reader,
+    answer what the flat model answers on the bytes the reader holds: same
+    result, same values, same error, same byte count, same tail count, same
+    allocation bound.  All theorems of this file about [start_call] and
+    [client_decode] therefore hold for every way of delivering the frame. *)
+Theorem C13_start_call_any_reader : forall tbl (r : reader N),
+  start_call gen_alloc_max tbl (flat N r) =
+  (fst (rstart_call gen_alloc_max tbl r), abs (snd (rstart_call gen_alloc_max tbl r))).
+Proof. exact (start_call_any_reader gen_alloc_max). Qed.
+Print Assumptions C13_start_call_any_reader.
+
+Theorem C13_client_decode_any_reader : forall cap sch (r : reader N),
+  client_decode gen_alloc_max cap sch (flat N r) =
+  match rclient_decode gen_alloc_max cap sch r with
+  | (h, Some (vs, s)) => (h, Some (vs, abs s))
+  | (h, None) => (h, None)
+  end.
+Proof. exact (client_decode_any_reader gen_alloc_max). Qed.
+Print Assumptions C13_client_decode_any_reader.
+
+(** Decoded values, error class, byte count and the tail count of
+    [decoder.end()] do not depend on how the reader chunks the same bytes or
+    on whether the last chunk comes together with io.EOF. *)
+Theorem C13_decode_delivery_independent : forall cap sch (s1 s2 : rstate),
+  abs s1 = abs s2 ->
+  fst (rdec_schema gen_alloc_max cap sch s1) = fst (rdec_schema gen_alloc_max cap sch s2) /\
+  abs (snd (rdec_schema gen_alloc_max cap sch s1)) = abs (snd (rdec_schema gen_alloc_max cap sch s2)) /\
+  abs (rd_end (snd (rdec_schema gen_alloc_max cap sch s1))) =
+  abs (rd_end (snd (rdec_schema gen_alloc_max cap sch s2))).
+Proof. exact (schema_delivery_independent gen_alloc_max). Qed.
+Print Assumptions C13_decode_delivery_independent.
+
+Theorem C13_start_call_delivery_independent : forall tbl (r1 r2 : reader N),
+  flat N r1 = flat N r2 ->
+  fst (rstart_call gen_alloc_max tbl r1) = fst (rstart_call gen_alloc_max tbl r2) /\
+  abs (snd (rstart_call gen_alloc_max tbl r1)) = abs (snd (rstart_call gen_alloc_max tbl r2)).
+Proof. exact (start_call_delivery_independent gen_alloc_max). Qed.
+Print Assumptions C13_start_call_delivery_independent.
+
+(** Seeded change C13-f (the tail counted only when Read returns no EOF):
+    a close request followed by one stray byte, delivered by a reader that
+    hands out its last bytes together with io.EOF - the model over that
+    reader still reports the tail. *)
+Example C13_tail_with_eof_reported :
+  fst (rstart_call gen_alloc_max gen_table
+         (mkR N [request_frame 7 6 (enc_schema [KU64] [VU64 5]) ++ [9]] true))
+  = CErr (ETail 1).
+Proof. vm_compute. reflexivity. Qed.
 
 Example C13_nonvacuous_reader :
   let r := mkR N [[1]; []; [2; 3]] true in
